@@ -41,6 +41,7 @@ type Profile struct {
 	DeepInitP      float64          // probability that the initial stack is 12-23 uncompacted tables deep
 	InitMin        int              // the initial stack has at least this many transactions
 	WidePopularP   float64          // probability (runs with 1024-byte blocks only) that the history ends with a transaction whose table has hundreds of ref blocks holding one object id
+	BigMultiP      float64          // probability that a multi-table Addition is a bulk import of 8-32 tables (the Addition API never compacts)
 	ShortRangesP   float64          // probability that a range compaction covers just 2-3 tables at a random position of a deep stack
 }
 
@@ -110,6 +111,9 @@ type genCtx struct {
 	nextID int
 	timeLo uint64
 	role   map[string]int
+	// uniform > 0: transactions of exactly this many plain refs and no
+	// log entries (tables of one size class: bulk imports)
+	uniform int
 }
 
 func (g *genCtx) txn() TxnSpec {
@@ -123,6 +127,13 @@ func (g *genCtx) txn() TxnSpec {
 		tx.Bad = []string{"stale-index", "big", "closure-error"}[r.Intn(3)]
 	}
 	nr := pickN(r, g.p.RefsPerTxn[0], g.p.RefsPerTxn[1])
+	if g.uniform > 0 {
+		tx.Span, tx.Bad = 0, ""
+		for i := 0; i < g.uniform; i++ {
+			tx.Refs = append(tx.Refs, RefSpec{Name: g.names[r.Intn(len(g.names))], Kind: RefVal})
+		}
+		return tx
+	}
 	popular := 0
 	if g.p.PopularP > 0 && r.Bool(g.p.PopularP) {
 		nr = 20 + r.Intn(45)
@@ -322,6 +333,13 @@ func (g *genCtx) op(h int) OpSpec {
 		}
 	case OpAddMulti:
 		n := 1 + r.Intn(3)
+		if g.p.BigMultiP > 0 && r.Bool(g.p.BigMultiP) {
+			n = 8 + r.Intn(25)
+			if r.Bool(0.7) {
+				g.uniform = 1 + r.Intn(2)
+				defer func() { g.uniform = 0 }()
+			}
+		}
 		for i := 0; i < n; i++ {
 			op.Txns = append(op.Txns, g.txn())
 		}
